@@ -213,7 +213,7 @@ Section ConcTear.
     destruct (nth_error_Forall _ _ _ _ F Ht) as (Re & Tops). rewrite Hc in Tops. cbn [forallb] in Tops.
     apply andb_true_iff in Tops as [Tm Tr].
     destruct t as [regs prog cont out]. cbn [t_cont] in Hc. subst cont. unfold regs_empty in Re. cbn [t_regs] in Re.
-    destruct m as [p i first keep|p i cand keep|delta after|h|r|r report|tb p i|p o]; cbn [tear_op] in Tm; try discriminate; cbn [exec_mop].
+    destruct m as [p i rt first keep|p i off cand keep|delta after|h|r|r report|tb p i|p o]; cbn [tear_op] in Tm; try discriminate; cbn [exec_mop].
     - (* an internal read-modify-write of the teardown *)
       cbn [fst upd_thread c_torn c_slots c_data c_threads].
       split; [|split; [|exact Dat]].
@@ -364,7 +364,7 @@ Section ConcTear.
     assert (Ot : (owned t >= 1)%Z) by (apply Hbusy; rewrite Hc; discriminate).
     unfold weight in Wt. rewrite Hc in Wt, Hnn.
     revert NT'. destruct t as [regs prog cont out].
-    destruct m as [p i first keep|p i cand keep|delta after|h|r|r report|tb p i|p o]; cbn [exec_mop].
+    destruct m as [p i rt first keep|p i off cand keep|delta after|h|r|r report|tb p i|p o]; cbn [exec_mop].
     - destruct (slot_lookup (c_slots s) (i :: p)); [|destruct (child_is_node g p i)]; cbn [fst upd_thread c_torn c_rc]; intros _; exact R.
     - destruct (slot_lookup (c_slots s) (i :: p)); cbn [fst upd_thread c_torn c_rc]; intros _; exact R.
     - cbn [fst upd_thread c_torn c_rc]. intros _. cbn [debt] in Wt. assert (D := NN_debt _ (NN_tail _ _ Hnn)). lia.
